@@ -114,7 +114,11 @@ type altEnv struct {
 	Decisions  []simrt.Decision `json:"decisions,omitempty"`
 }
 
+// lastTwin is the valid twin of the project genProject returned last (nil if none).
+var lastTwin *Project
+
 func (c *c03) genProject(r *rng) (Project, bool) {
+	lastTwin = nil
 	cp := loadCorpus()
 	if r.chance(350) {
 		for tries := 0; tries < 8; tries++ {
@@ -127,7 +131,9 @@ func (c *c03) genProject(r *rng) (Project, bool) {
 	multi := false
 	if r.chance(700) {
 		multi = true
-		switch r.n(8) {
+		switch r.n(9) {
+		case 8:
+			cfg.EnumMismatch = 1
 		case 5:
 			cfg.DupPathParams = 2 + r.n(3)
 		case 6:
@@ -148,8 +154,19 @@ func (c *c03) genProject(r *rng) (Project, bool) {
 		cfg.Enums += 2
 		cfg.EnumsInTypes = true
 	}
+	rs := *r // the twin is generated from the same PRNG state
 	d := generateDoc(r, cfg)
 	single, mp, _ := cutProject(d, r, "/sim/proj/api", 3)
+	if cfg.EnumMismatch == 1 {
+		cfg2 := cfg
+		cfg2.EnumMismatch = 2
+		r2 := rs
+		d2 := generateDoc(&r2, cfg2)
+		t := Project{Root: single.Root, Cwd: single.Cwd}
+		t.set(t.Root, []byte(d2.Render()))
+		lastTwin = &t
+		return single, multi
+	}
 	if r.chance(500) {
 		return single, multi
 	}
@@ -162,6 +179,7 @@ func (c *c03) DumpCase(seed uint64, idx int) []Case {
 	cs.Opts = optionSets[r.n(4)]
 	p, multi := c.genProject(r)
 	cs.Project = p
+	twin := lastTwin
 	var envs []altEnv
 	for e := 0; e < c.nEnvs; e++ {
 		a := altEnv{}
@@ -185,6 +203,10 @@ func (c *c03) DumpCase(seed uint64, idx int) []Case {
 				// the same paths with slightly different content of the same length, processed
 				// earlier in this process (a file edited between two parses)
 				a.History = append(a.History, editedCopy(&p, r))
+			}
+			if twin != nil {
+				// the valid twin of this invalid project (same schema texts, other ENUM) came first
+				a.History = append(a.History, *twin)
 			}
 		}
 		if e == 3 || (e > 3 && r.chance(250)) {
@@ -300,9 +322,10 @@ func executeConcurrent(ps []*Project, o Opts, env Env, seed uint64, forced []sim
 	simrt.SetBudget(softFactor*total, hardFactor*total)
 	res := make([]Result, len(ps))
 	fns := make([]func(), len(ps))
+	shared := o.options() // one set of option values for all goroutines
 	for i := range ps {
 		i := i
-		fns[i] = func() { res[i] = runLibrary(ps[i].Root, ps[i].content(ps[i].absRoot()), o) }
+		fns[i] = func() { res[i] = runLibraryWith(ps[i].Root, ps[i].content(ps[i].absRoot()), shared, o.Entry) }
 	}
 	panics := simrt.RunGoroutines(fns)
 	for i, pv := range panics {
@@ -587,6 +610,12 @@ func diffShape(what string) string {
 func editedCopy(p *Project, r *rng) Project {
 	q := p.clone()
 	files := sortedKeys(q.Files)
+	if r.chance(300) && len(files) > 0 {
+		// the other line-break convention in one file (CR only), everything else the same
+		path := files[r.n(len(files))]
+		q.set(path, []byte(strings.ReplaceAll(string(q.content(path)), "\n", "\r")))
+		return q
+	}
 	for k := 0; k < 3 && len(files) > 0; k++ {
 		path := files[r.n(len(files))]
 		b := append([]byte(nil), q.content(path)...)
